@@ -21,6 +21,7 @@ struct StreamPlan {
   std::vector<size_t> read_segs;  // lengths of the successive segments of the reply stream (rest delivered whole)
   std::vector<int>    write_plan; // see World::write_plan
   bool                one_byte_reads = false;
+  bool                close_after = false; // the server closes the connection right behind the last byte of its reply stream
 };
 struct StreamOutcome {
   std::string              tokens;  // per token status + results
@@ -134,6 +135,11 @@ static StreamOutcome run_stream(const StreamScenario &sc, const StreamPlan &pl, 
       ts->instream.insert(ts->instream.end(), X.begin() + (long)xpos, X.begin() + (long)(xpos + n));
       xpos += n;
       acted = true;
+      // the FIN is already pending behind the data when the library gets to read
+      if (pl.close_after && xpos == X.size()) {
+        ts->peer_closed = true;
+        w.W("close_behind_last_reply_byte");
+      }
     }
     if (!w.ready_fds(false).empty()) {
       w.do_io(false);
@@ -168,7 +174,7 @@ static std::string plan_json(const StreamScenario &sc, const StreamPlan &pl, lon
 {
   std::string s = "{\"index\":" + std::to_string(index) + ",\"nq\":" + std::to_string(sc.nq) + ",\"tc_upgrade\":" + (sc.tc_upgrade ? "1" : "0") +
                   ",\"pending_write_cb\":" + (sc.pending_write_cb ? "1" : "0") + ",\"connect_inprogress\":" + (sc.connect_inprogress ? "1" : "0") + ",\"staggered\":" + (sc.staggered ? "1" : "0") +
-                  ",\"one_byte_reads\":" + (pl.one_byte_reads ? "1" : "0") + ",\"read_segs\":[";
+                  ",\"one_byte_reads\":" + (pl.one_byte_reads ? "1" : "0") + ",\"close_after\":" + (pl.close_after ? "1" : "0") + ",\"read_segs\":[";
   for (size_t i = 0; i < pl.read_segs.size(); i++) s += (i ? "," : "") + std::to_string(pl.read_segs[i]);
   s += "],\"write_plan\":[";
   for (size_t i = 0; i < pl.write_plan.size() && i < 400; i++) s += (i ? "," : "") + std::to_string(pl.write_plan[i]);
@@ -399,6 +405,7 @@ int stream_main(const vf::Args &a)
       sc.staggered          = geti("staggered");
       StreamPlan pl;
       pl.one_byte_reads = geti("one_byte_reads");
+      pl.close_after    = geti("close_after");
       for (long x : getv("read_segs")) pl.read_segs.push_back((size_t)x);
       for (long x : getv("write_plan")) pl.write_plan.push_back((int)x);
       StreamOutcome base = run_stream(sc, StreamPlan(), false);
@@ -462,6 +469,23 @@ int stream_main(const vf::Args &a)
       StreamPlan p;
       p.one_byte_reads = true;
       plans.push_back(p);
+    }
+    {
+      // the same inbound plans once more with the server closing the connection right behind its last byte: whole
+      // reply in one read, every 2-way split, one byte per read
+      StreamPlan p;
+      p.close_after = true;
+      plans.push_back(p);
+      for (size_t i = 1; i < RL; i++) {
+        StreamPlan q;
+        q.read_segs   = { i };
+        q.close_after = true;
+        plans.push_back(q);
+      }
+      StreamPlan r;
+      r.one_byte_reads = true;
+      r.close_after    = true;
+      plans.push_back(r);
     }
     for (size_t k = 1; k < QL; k++) {
       StreamPlan p;
